@@ -38,11 +38,6 @@ func (m modset) get(n string, s Sort) *modInfo {
 func (m modset) whole(n string, s Sort) { m.get(n, s).whole = true }
 
 func (m modset) at(n string, s Sort, v ssa.Value) {
-	if isFreshAlloc(v) {
-		// writes to an object allocated by the analysed code itself do not
-		// change any location that existed before
-		return
-	}
 	mi := m.get(n, s)
 	for _, r := range mi.refs {
 		if r == v {
@@ -128,7 +123,7 @@ func (x *Exec) instrMods(ins ssa.Instruction, out modset, visiting map[*ssa.Func
 	case *ssa.MapUpdate:
 		x.mapCompsAt(in.Map.Type().Underlying().(*types.Map), in.Map, out)
 	case *ssa.MakeMap:
-		x.mapCompsInto(in.Type().Underlying().(*types.Map), out)
+		// fresh map: no pre-existing location changes
 	case *ssa.Alloc:
 		// fresh cell: writes only a new reference (no pre-existing location changes)
 	case *ssa.MakeSlice, *ssa.Convert, *ssa.Slice:
@@ -211,13 +206,21 @@ func (x *Exec) fnMods(fn *ssa.Function, visiting map[*ssa.Function]bool) modset 
 			x.instrMods(ins, out, visiting)
 		}
 	}
-	// references that are not parameters of fn cannot be named by callers
+	// writes to objects allocated by fn itself do not change any location that
+	// existed before the call; other references that are not parameters of fn
+	// cannot be named by callers
 	for _, mi := range out {
+		var keep []ssa.Value
 		for _, r := range mi.refs {
+			if isFreshAlloc(r) {
+				continue
+			}
+			keep = append(keep, r)
 			if _, ok := r.(*ssa.Parameter); !ok {
 				mi.whole = true
 			}
 		}
+		mi.refs = keep
 	}
 	delete(visiting, fn)
 	if len(visiting) == 0 {
@@ -245,6 +248,9 @@ func (x *Exec) loopMods(lp *loop) modset {
 	for _, mi := range out {
 		var keep []ssa.Value
 		for _, r := range mi.refs {
+			if isFreshAlloc(r) && !loopInvariantValue(lp, r) {
+				continue // allocated inside the loop: no pre-existing location
+			}
 			if loopInvariantValue(lp, r) || x.invariantLoad(lp, r, written) {
 				keep = append(keep, r)
 				continue
